@@ -1389,7 +1389,7 @@ func exchangeServiceInfoRound(ctx context.Context, transport Transport, mtu uint
 		if errors.Is(err, serviceinfo.ErrSizeTooSmall) {
 			msg.IsMoreServiceInfo = true
 			if maxRead == mtu {
-				msg.IsMoreServiceInfo = false // likely due to a yield... but also could be a malicious large key?
+				msg.IsMoreServiceInfo = false // a key too large for any message; do not retry forever
 			}
 			break
 		}
